@@ -516,6 +516,7 @@ type worker struct {
 	rank   int
 	seq    int64
 	trace  bool
+	slot   int // liveness watchdog slot
 
 	offeredForObs []byte // the offered bytes of the current single-stream case (for over-limit observations)
 }
@@ -786,6 +787,9 @@ type job struct {
 // readerCase: one (stream, cuts, mode, k) through one reader handler.
 func (w *worker) readerCase(h string, stream []byte, spec streamSpec, cuts []int, mode, k int, wants map[int]*wantInfo) {
 	offered := w.sc.build(stream, cuts, mode, k)
+	rep.Beat(w.slot, func() string {
+		return caseSpec{Handler: h, Streams: []streamSpec{spec}, Cuts: append([]int(nil), cuts...), Mode: modeNames[mode], K: k}.String()
+	})
 	want := wants[offered]
 	if want == nil {
 		want = mkWant(stream[:offered], tcpLimit)
@@ -1271,6 +1275,11 @@ func main() {
 	}
 	var next int64 = -1
 	var skipped int64
+	// a handler that never returns (a retry loop on a connection that keeps failing, ...) must end the check
+	rep.Watch(10*time.Minute, func() map[string]interface{} {
+		return map[string]interface{}{"evaluations": rep.Beats(), "distinct_nontrivial": rep.Beats(),
+			"rule": "stopped by the liveness watchdog: the numbers are the reader cases started so far", "samples": []string{"see violations"}}
+	})
 	nw := runtime.NumCPU()
 	results := make([]*stats, nw)
 	var wg sync.WaitGroup
@@ -1279,10 +1288,12 @@ func main() {
 		go func(i int) {
 			defer wg.Done()
 			w := newWorker()
+			w.slot = i
 			results[i] = w.st
 			for {
 				k := int(atomic.AddInt64(&next, 1))
 				if k >= len(jobs) {
+					rep.Rest(i)
 					return
 				}
 				if time.Now().After(deadline) {
